@@ -19,8 +19,8 @@ INVARIANTS = ['OneFinal', 'EndsFinal', 'Truthful', 'FreedAll', 'ReleaseOnce', 'K
 DEVS = ['DevIntakeCancelNoRelease', 'DevExecRaiseNoRelease']
 
 
-def T(uid, fault='none', raises='none', cores=1):
-    return {'uid': uid, 'fault': fault, 'raises': raises, 'cores': cores}
+def T(uid, fault='none', raises='none', cores=1, soe=False, out=False):
+    return {'uid': uid, 'fault': fault, 'raises': raises, 'cores': cores, 'soe': soe, 'out': out}
 
 
 # (name, tasks, bulks, cancels, ncores)
@@ -40,7 +40,35 @@ SCENARIOS = [
     ('big',          [T('t1', cores=3), T('t2')], [['t1', 't2']], [], 2),
     ('raise-exec',   [T('t1', raises='exec'), T('t2')], [['t1'], ['t2']], [], 2),
     ('three',        [T('t1'), T('t2', 'exit'), T('t3', 'ain')], [['t1', 't2'], ['t3']], [['t3']], 2),
+    # one bulk spanning both pilots of the task manager, the failing task on the first of them
+    ('stagein-bulk', [T('t1', 'tin'), T('t2')], [['t1', 't2']], [], 2),
+    ('stagein-bulk2', [T('t1'), T('t2', 'tin')], [['t1', 't2']], [], 2),
+    # staging on error: a failed task whose output transfer succeeds stays FAILED
+    ('soe-exit',     [T('t1', 'exit', soe=True, out=True), T('t2', out=True)], [['t1', 't2']], [], 2),
+    ('soe-cancel',   [T('t1', soe=True, out=True), T('t2', 'exit', out=True)], [['t1'], ['t2']], [['t1']], 2),
+    # a cancel naming one task of a bulk which reaches the executor together with a bystander
+    ('cancel-one-bulk', [T('t1'), T('t2')], [['t1', 't2']], [['t1']], 2),
+    # t1, t2 wait behind t0 and are started together (one bulk for the executor); the cancel of
+    # t1 reaches the executor before that bulk does
+    ('cancel-in-waitbulk', [T('t0', cores=2), T('t1'), T('t2')], [['t0'], ['t1', 't2']], [['t1']], 2),
 ]
+
+# directed step sequences (followed by a seeded random completion): interleavings
+# worth having on every run
+DIRECTED = {
+    'cancel-in-waitbulk': [
+        ['submit', 'submit', 'step:tsched', 'step:tsched', 'step:tin', 'step:tin', 'step:ain', 'step:ain',
+         'step:ain', 'step:asched', 'step:aschedc', 'step:asched', 'step:asched', 'step:aschedc', 'step:exec',
+         'cancel', 'ctrl:exec', 'exit:t0', 'step:watch', 'unsched', 'step:aschedc', 'step:exec'],
+        ['submit', 'submit', 'step:tsched', 'step:tsched', 'step:tin', 'step:tin', 'step:ain', 'step:ain',
+         'step:asched', 'step:aschedc', 'step:asched', 'step:aschedc', 'step:exec',
+         'exit:t0', 'step:watch', 'cancel', 'ctrl:exec', 'ctrl:aout', 'unsched', 'step:aschedc', 'step:exec'],
+    ],
+    'cancel-one-bulk': [
+        ['submit', 'step:tsched', 'step:tin', 'step:ain', 'cancel', 'ctrl:asched', 'step:asched', 'step:aschedc'],
+        ['submit', 'step:tsched', 'cancel', 'ctrl:tin', 'step:tin', 'ctrl:ain', 'step:ain'],
+    ],
+}
 
 
 def q(s):
@@ -137,7 +165,7 @@ def run(chk, tier, seed):
     quick = tier == 'quick'
     rng   = random.Random(seed * 65537 + 3)
 
-    scen = SCENARIOS[:11] if quick else SCENARIOS
+    scen = SCENARIOS[:11] if quick else SCENARIOS[:15]     # (the model has no stage_on_error / multi-pilot notion)
     for name, tasks, bulks, cancels, ncores in scen:
         if len(tasks) > 2 and quick:
             continue
@@ -173,6 +201,9 @@ def run(chk, tier, seed):
             jobs.append(('script', name, tasks, bulks, cancels, ncores, scripts))
         finally:
             shutil.rmtree(dump, ignore_errors=True)
+        if name in DIRECTED:
+            jobs.append(('script', name, tasks, bulks, cancels, ncores,
+                         [list(d) for d in DIRECTED[name] for _ in range(3 if quick else 12)]))
         jobs.append(('random', name, tasks, bulks, cancels, ncores,
                      (rng.randrange(10 ** 9), 25 if quick else 400)))
         # runs in which non-final state notifications get lost on the way to the client
@@ -197,6 +228,8 @@ def run(chk, tier, seed):
         t2 = {k: tr[k] for k in ('uids', 'spec', 'named', 'ncores')}
         t2['events'] = [{k: e[k] for k in ('ev', 'arg', 'raised', 'killed', 'err', 'client', 'free',
                                            'pool', 'intasks')} for e in tr['events']]
+        for e, e2 in zip(tr['events'], t2['events']):
+            e2['rel'] = list(e['uids']) if e['ev'] == 'unsched' else []
         slim.append(t2)
     res, st = tracecheck.validate('Pipeline', 'PipelineTrace', '', slim, max_batch=150, parallel=12)
     chk.states += st['states']
@@ -212,6 +245,8 @@ def run(chk, tier, seed):
             owners = {p}
             if err in ('C08.ResourcesNotFreed', 'C08.LeftInPool'):
                 owners.add('C03')
+            if err in ('C03.ReleasedTwice', 'C08.ResourcesNotFreed'):
+                owners.add('C07')       # the executor asks for the release, exactly once
             if pid not in owners:
                 continue
             clause = err if p == pid else pid + '.' + err.split('.', 1)[1]
@@ -248,6 +283,8 @@ def replay(chk, obj):
     t2 = {k: tr[k] for k in ('uids', 'spec', 'named', 'ncores')}
     t2['events'] = [{k: e[k] for k in ('ev', 'arg', 'raised', 'killed', 'err', 'client', 'free',
                                        'pool', 'intasks')} for e in tr['events']]
+    for e, e2 in zip(tr['events'], t2['events']):
+        e2['rel'] = list(e['uids']) if e['ev'] == 'unsched' else []
     res, st = tracecheck.validate('Pipeline', 'PipelineTrace', '', [t2])
     chk.traces += 1
     for err in res[0]:
